@@ -63,6 +63,8 @@ def gen(rng, *, ia: bool = True, time: bool = True, conditionals: bool = True, c
         table = [r for r in table if r[0] is not tr.t_eqgate]
     for j in range(nrx):
         fn, kinds = rng.choice(table)
+        if equality_gates and conditionals and j == 0 and rng.random() < 0.12:
+            fn, kinds = tr.t_eqgate, "vap"
         if untranslatable and j == 0:
             fn, kinds = rng.choice(tr.UNTRANSLATABLE), "vp"
             feats.add("untranslatable")
